@@ -81,6 +81,44 @@ def body(S, t, part):
     S.note("failures", fails)
 
 
+def body_ball_save(S, t, part):
+    """ball save with an eject delay and two balls in play: every saved ball is delivered again"""
+    m = t.machine
+    S.now_symbolic(t.loop)
+    dur = {"transit_bd_trough": 0.5, "transit_bd_plunger": 0.5}
+    devs = [Dev("bd_trough", ["s_trough1", "s_trough2"], "c_trough", "bd_plunger"), Dev("bd_plunger", ["s_plunger"], "c_plunger", "playfield")]
+    w = World(t, devs, {"bd_trough": 2}, dur)
+    t.advance_time_and_run(1)
+    t.hit_and_release_switch("s_start")
+    t.advance_time_and_run(10)
+    if m.game is None or w.pf != 1:
+        raise Violation("harness", "start", "game/ball not started (pf %s)" % w.pf)
+    m.playfield.add_ball(1)
+    m.game.balls_in_play += 1
+    t.advance_time_and_run(10)
+    if w.pf != 2:
+        raise Violation("requested-ball-is-eventually-delivered", "Playfield.add_ball", "second ball not delivered (pf %s)" % w.pf)
+    saved = []
+    m.events.add_handler("ball_save_bs_saving_ball", lambda balls=0, **kwargs: saved.append(balls))
+    gap = S.real("drain_gap", 0, 4)
+    w.drain()
+    t.advance_time_and_run(gap)
+    w.drain()
+    t.advance_time_and_run(60)
+    if w.violations:
+        raise Violation(*w.violations[0])
+    n_saved = sum(saved)
+    if m.game is None:
+        raise Violation("saved-ball-is-delivered", "BallSave", "game ended although the ball save was active")
+    if w.pf != n_saved or m.game.balls_in_play != w.pf:
+        raise Violation("saved-ball-is-delivered", "BallSave._schedule_balls", "ball save saved %d ball(s) (drain gap %s s) but %d are back on the playfield, balls_in_play %s" % (
+            n_saved, gap, w.pf, m.game.balls_in_play))
+    w.check_idle("60 s after the drains")
+    w.check_counts("60 s after the drains")
+    S.note("nontrivial", n_saved > 0)
+    S.note("saved", n_saved)
+
+
 def scenarios(tier):
     parts = []
     for f in range(0, 5):
@@ -91,4 +129,5 @@ def scenarios(tier):
     parts.append(dict(machine="balls_a", mode="stuck", balls=1, failures=1))
     parts.append(dict(machine="balls_a", mode="back", balls=1, failures=1, via_game=True))
     pb = 60 if tier == "quick" else 800
-    return [Scenario("failures", setup, body, parts, teardown=teardown, part_budget=pb, per_path_timeout=30 if tier == "quick" else 120)]
+    return [Scenario("failures", setup, body, parts, teardown=teardown, part_budget=pb, per_path_timeout=30 if tier == "quick" else 120),
+            Scenario("ball_save", setup, body_ball_save, [dict(machine="balls_e")], teardown=teardown, part_budget=pb, per_path_timeout=60)]
